@@ -593,8 +593,16 @@ class Interp:
         return names, attrs
 
     def loop_spec(self, st, fr):
+        # ordinal = position of the loop in source order within the function (not the dynamic count)
+        fnode = fr.func.node if fr.func is not None else None
+        order = getattr(fr, 'loop_order', None)
+        if order is None and fnode is not None:
+            loops = [n for n in ast.walk(fnode) if isinstance(n, (ast.For, ast.While))]
+            loops.sort(key=lambda n: (n.lineno, n.col_offset))
+            order = {id(n): i + 1 for i, n in enumerate(loops)}
+            fr.loop_order = order
         fr.loop_ordinal += 1
-        ordinal = fr.loop_ordinal
+        ordinal = order.get(id(st), fr.loop_ordinal) if order else fr.loop_ordinal
         con = self.contract if fr is self.entry_frame else None
         if con is None:
             return None, ordinal
